@@ -13,6 +13,9 @@ its own arguments: data (N rows incl. N = 0, container form), pos/neg batch size
 CallbackList / iterator; a later call may pass the very same container object again), time, scheduler, starting_epoch/epochs,
 stop injections, and what the caller does to the flag before it (nothing / `stop_training = True` / `= False`).
 A second stream exercises the LambdaCallback constructor (arity by `inspect.signature`, non-callables, None).
+Extension round 2: `asg` cases (callbacks assigning every kind of value to `stop_training` at every event, caught or not; model QV.Train.fitAsg /
+setStop; the call after an escaped exception; the Timer differential) and `cbl` cases (random operation sequences on a real CallbackList; model
+QV.Train.cbRunOps) -- verdicts by effect; which objects / operations are refused and with which exception is only counted.
 
 Argument forms (round 5): every integer option of `fit` (epochs, pos_batch_size, neg_batch_size, k, starting_epoch) and of the state
 constructors (num_visible, num_hidden, num_aux) is handed over in a form drawn from the case's `qc.Ints(iseed)` stream (Python int,
@@ -45,6 +48,8 @@ REQUIRED_THEOREMS = [
     "C12_protocol_no_batches", "C12_stop_at_epoch_start_no_batches", "C12_stop_at_train_start_no_batches",
     "C12_scheduler_once_per_epoch_no_batches", "C12_fit_args_no_rows", "C12_lambda_init", "C12_lambda_dispatch",
     "C12_fit_args_abort",
+    "C12_refused_request_leaves_flag", "C12_exception_trace", "C12_container_ops", "C12_container_ops_dispatch", "C12_timer_transparent",
+    "C12_timer_prints", "C12_exception_no_train_end",
 ]
 RULE = ("case = session on one state object (kind) of 1..3 consecutive fit calls, each call = (starting_epoch, epochs, N, "
         "pos_batch_size, neg_batch_size in {None, 0, < pos, = pos, > pos, >= N}, data container form (tensor dtypes, non-contiguous "
@@ -65,11 +70,17 @@ RULE = ("case = session on one state object (kind) of 1..3 consecutive fit calls
         "bool / int / np.bool_ / numpy comparison result / 0-d ndarray / 0-d tensor (`fseed`); the first npos in 1..15 arguments of fit positional; "
         "in a third of the cases every keyword whose value is the documented default is OMITTED; a counted-only stream of calls that raise inside "
         "fit (no reference-basis row / no rows with neg != pos: outside the property, no verdict); "
+        "extension round 2: `asg` cases = one fit call whose callbacks ASSIGN to stop_training one of 12 values (Python bool / numpy.bool_ incl. a numpy "
+        "comparison result / int 0,1,2 / 0-d tensor / None / str, each truthy or falsy) at 1..3 points drawn from all events of the run, inside a try or not "
+        "(falsy values only in runs without any other request), optionally a stop raised during a batch; after an escaped exception a second call on the same "
+        "object; the same case again on a fresh object with `time` flipped; `cbl` cases = 2..7 random container operations (__setitem__, __delitem__, insert, "
+        "append, + on either side; indices -n-3..n+3; 22% non-callbacks of six kinds) on a real CallbackList, then cl[k], len and a fit given the container; "
         "non-trivial iff some call begins at least one epoch and (a stop is injected or there are >= 2 batches or >= 2 callbacks), or a "
         "constructor case with >= 1 non-None argument; distinct by hash of the case")
 EXTRA_TRUSTED = [
-    "C12: user callbacks are modelled only through the stop requests they make (Req); exceptions raised by callbacks, "
-    "progress bars and GPU paths are not modelled; `_shuffle_data` is assumed to succeed (its error cases belong to C07)",
+    "C12: user callbacks are modelled only through the stop requests they make (Req) and the assignments to stop_training they attempt (Asg: the "
+    "setter's refusal and the exception escaping from fit are modelled, C12_exception_trace); other exceptions raised by callbacks, clearing the flag "
+    "in mid-run, progress bars and GPU paths are not modelled; `_shuffle_data` is assumed to succeed (its error cases belong to C07)",
 ]
 
 KINDS = ("pos", "cplx", "dens")
@@ -425,6 +436,10 @@ def one_case(ctx, case):
         return ctor_case(ctx, case)
     if "abort" in case:
         return abort_case(ctx, case)
+    if "asg" in case:
+        return asg_case(ctx, case)
+    if "cbl" in case:
+        return cbl_case(ctx, case)
     case = as_session(case)
     ctx.current_case = case
     kind, lam, runs = case["kind"], case["lambda"], case["runs"]
@@ -520,7 +535,7 @@ def one_call(ctx, case, kind, st, data_bases, hold, objs, run, r_idx, sess, m, s
             refused_ok = refused_ok and bool(same)
         ctx.oracle("an assignment to stop_training that raises leaves the flag (public property) unchanged", bool(refused_ok), ctx.current_case,
                    detail=first_bad, sig=f"{kind}/refused-stop-request",
-                   theorem="(oracle only: the setter is not modelled; C12_sticky / C12_session_stopped take the flag at entry as given)")
+                   theorem="C12_refused_request_leaves_flag (which objects are refused is not judged; C12_sticky / C12_session_stopped take the flag at entry as given)")
     # ---- the option objects of this call
     fl, it = sess.get("fl") or qc.Flags(None), sess.get("it") or qc.Ints(None)
     fam = int_family(getattr(it, "iseed", None))
@@ -997,7 +1012,7 @@ def gen_cases(ctx, thorough):
     """every fit case carries the seeds of its argument-form streams (qc.Flags / qc.Ints); about one case in eight keeps plain Python values"""
     rng = ctx.rng
     for case in _gen_cases(ctx, thorough):
-        if "ctor" not in case and "abort" not in case and rng.random() < 0.875:
+        if "runs" in case and rng.random() < 0.875:
             case["fseed"], case["iseed"] = rng.randrange(2 ** 31), rng.randrange(2 ** 31)
         yield with_omissions(rng, case)
 
@@ -1048,6 +1063,8 @@ def _gen_cases(ctx, thorough):
                "runs": gen_session(rng, ncalls=rng.choice([1, 2]), empty_ok=True)}
     yield from gen_ctor_cases(rng, 600 if thorough else 90)
     yield from gen_abort_cases(rng, 60 if thorough else 12)
+    yield from gen_asg_cases(rng, 900 if thorough else 110)
+    yield from gen_cbl_cases(rng, 600 if thorough else 90)
 
 
 # ------------------------------------------------------------------ calls that raise inside `fit` (OUTSIDE the property: counted, never judged)
@@ -1103,6 +1120,392 @@ def abort_case(ctx, case):
         agree = (m.get("result") == "ok") == (err is None) and (err is None or seen == m.get("abortCalls"))
         ctx.count(f"abort_regime:model={m.get('result')},agrees_with_implementation={agree}")
     ctx.case(case, nontrivial=False, sample=None)
+
+
+# ------------------------------------------------------------------ extension round 2: callbacks ASSIGNING to stop_training (every kind of
+# value, at every event, inside or outside a try), exceptions escaping from fit, the Timer differential
+TRUTHY_VALS = (["bool", True], ["npbool", True], ["int", 1], ["int", 2], ["tensor", True], ["str", "yes"])
+FALSY_VALS = (["bool", False], ["npbool", False], ["int", 0], ["tensor", False], ["none"], ["str", ""])
+
+
+def py_val(spec):
+    """the Python object of a value spec (model: QV.Train.PyVal)"""
+    tag = spec[0]
+    if tag == "bool":
+        return bool(spec[1])
+    if tag == "npbool":
+        return (np.float64(1.0) > 0.5) if spec[1] else np.bool_(False)  # a numpy comparison result / np.bool_
+    if tag == "int":
+        return int(spec[1])
+    if tag == "tensor":
+        return torch.tensor(bool(spec[1]))
+    if tag == "none":
+        return None
+    return str(spec[1])
+
+
+class _AsgRecorder(_Recorder):
+    """recorder whose handlers execute `st.stop_training = value` where the case says so (inside a try when `catches`)"""
+
+    def __init__(self, assigns, inject_mid_ordinals):
+        super().__init__([], inject_mid_ordinals)
+        self.assigns = {(i, tuple(ev)): (val, catches) for i, ev, val, catches in assigns}
+        self.outcomes = []
+
+    def handle(self, ident, st, ev, fid=None):
+        self.log.append(["call", ident, ev, bool(st.stop_training), self.version(st)])
+        self.ucalls.append([fid, ident, ev])
+        a = self.assigns.get((ident, tuple(ev)))
+        if a is None:
+            return
+        spec, catches = a
+        before = bool(st.stop_training)
+        out = {"i": ident, "ev": ev, "val": spec, "catches": catches, "before": before}
+        try:
+            st.stop_training = py_val(spec)
+        except Exception as e:  # noqa: BLE001  any exception type is a refusal
+            out.update(raised=type(e).__name__, after=bool(st.stop_training))
+            self.outcomes.append(out)
+            if not catches:
+                raise
+        else:
+            out.update(raised=None, after=bool(st.stop_training))
+            self.outcomes.append(out)
+
+
+def simple_fit(st, rec, data, bases, a, callbacks, time=None):
+    """a plain keyword call of fit with the recording optimizer / scheduler; returns the exception that escaped (or None)"""
+    kw = {} if bases is None else {"input_bases": np.array(bases)}
+    try:
+        with contextlib.redirect_stdout(io.StringIO()), contextlib.redirect_stderr(io.StringIO()):
+            st.fit(container(data, "tensor_f64"), epochs=a["epochs"], pos_batch_size=a["B"], starting_epoch=a["start"],
+                   time=(a["time"] if time is None else time), callbacks=callbacks, optimizer=make_optimizer_class(rec, st),
+                   optimizer_args={"weight_decay": 0.05}, scheduler=(make_scheduler_class(rec) if a["sched"] else None), **kw)
+    except Exception as e:  # noqa: BLE001
+        return e
+    return None
+
+
+def gen_asg_cases(rng, count):
+    for c in range(count):
+        kind = KINDS[c % 3] if c % 2 else "pos"
+        N, B = rng.choice([(4, 4), (3, 2), (4, 2), (5, 2), (3, 1), (1, 1)])
+        nb = -(-N // B)
+        start = rng.choice([1, 1, 0, 3])
+        epochs = start + rng.choice([0, 1, 1, 2])
+        cbs = cb_lists(rng)
+        pts = [p for p in ref_points(start, epochs, nb) if p[0] != "mid"]
+        mode = rng.choice(["truthy", "truthy", "falsy"])
+        vals = TRUTHY_VALS if mode == "truthy" else FALSY_VALS
+        assigns = []
+        for p in rng.sample(pts, min(len(pts), rng.choice([1, 1, 2, 3]))):
+            assigns.append([rng.choice(cbs), p, list(rng.choice(vals)), rng.random() < 0.6])
+        mid = []
+        if mode == "truthy" and rng.random() < 0.25:
+            e = rng.randint(start, epochs)
+            mid = [[e, rng.randrange(nb)]]
+        yield {"asg": {"kind": kind, "start": start, "epochs": epochs, "N": N, "B": B, "cbs": cbs, "time": rng.random() < 0.5,
+                       "sched": rng.random() < 0.5, "assigns": assigns, "mid": mid, "mode": mode},
+               "dseed": rng.randrange(1 << 30)}
+
+
+def asg_run(case, time=None):
+    """build a fresh state + callbacks from the case and run fit once; returns everything observed"""
+    import random
+
+    a = case["asg"]
+    rng = random.Random(case["dseed"])
+    st = make_state(a["kind"], rng)
+    data, bases = make_data(a["kind"], a["N"], rng)
+    torch.manual_seed(case["dseed"])
+    nb = -(-a["N"] // a["B"])
+    hold = _Holder()
+    rec = _AsgRecorder(a["assigns"], [(e - a["start"]) * nb + b for e, b in a["mid"]])
+    hold.rec = rec
+    objs = {i: make_callback_spec(hold, i, {"lam": i % 2 == 0, "forms": ["pos"] * 6}) for i in set(a["cbs"])}
+    h_before = param_hash(st)
+    rec.hashes[h_before] = 0
+    err = simple_fit(st, rec, data, bases, a, [objs[i] for i in a["cbs"]], time=time)
+    return {"st": st, "rec": rec, "err": err, "hold": hold, "objs": objs, "data": data, "bases": bases, "nb": nb}
+
+
+def asg_case(ctx, case):
+    ctx.current_case = case
+    a = case["asg"]
+    kind, cbs, start, epochs = a["kind"], a["cbs"], a["start"], a["epochs"]
+    r = asg_run(case)
+    st, rec, err, nb = r["st"], r["rec"], r["err"], r["nb"]
+    sig = f"{kind}/fit-asg"
+    thm = "C12_refused_request_leaves_flag"
+    log = [en for en in rec.log if en[0] != "sched"]
+    calls = [en for en in log if en[0] == "call"]
+    # ---- effect of every executed assignment (independent of the model; any exception type is a refusal)
+    bad_ref = next((o for o in rec.outcomes if o["raised"] and o["after"] != o["before"]), None)
+    ctx.oracle("an assignment to stop_training made by a callback that raises leaves the flag unchanged", bad_ref is None, case,
+               detail=bad_ref, sig=f"{sig}/refused-assignment-frame", theorem=thm)
+    bad_acc = next((o for o in rec.outcomes if not o["raised"] and o["after"] != bool(py_val(o["val"]))), None)
+    ctx.oracle("an accepted assignment makes the flag the truth value of the assigned object (no spurious request)", bad_acc is None, case,
+               detail=bad_acc, sig=f"{sig}/accepted-assignment-value", theorem=thm)
+    for o in rec.outcomes:
+        ctx.count(f"asg:{o['val'][0]}({bool(py_val(o['val']))})@{o['ev'][0]}:" + ("refused" if o["raised"] else "accepted") +
+                  ("" if o["catches"] else ",uncaught"))
+    eff = {(o["i"], tuple(o["ev"])) for o in rec.outcomes if not o["raised"] and bool(py_val(o["val"]))}
+    escaped = next((o for o in rec.outcomes if o["raised"] and not o["catches"]), None)
+    mids = [list(m) for m in a["mid"]]
+    requested = lambda p: ((p[0] == "mid" and [p[1], p[2]] in mids) or  # noqa: E731
+                           (p[0] != "mid" and any((i, tuple(p)) in eff for i in cbs)))
+    final = {"stop": bool(st.stop_training), "ver": rec.opt_steps, "sched": rec.sched_steps}
+    if err is None:
+        # ---- a run that returned: protocol by EFFECT (a refused assignment is not a request; an accepted true value is)
+        exp_events, exp_stop = ref_events(start, epochs, nb, False, requested)
+        exp_ucalls = [[fid_of(i, ev[0]), i, ev] for ev in exp_events for i in cbs]
+        ctx.oracle("event trace of a run whose callbacks assign to stop_training == protocol reference for the requests that were ACCEPTED",
+                   rec.ucalls == exp_ucalls, case, detail={"impl": rec.ucalls[:40], "expected": exp_ucalls[:40],
+                                                          "outcomes": rec.outcomes[:6]},
+                   sig=f"{sig}/protocol", theorem="C12_refused_request_leaves_flag, C12_protocol, C12_stop_in_batch, C12_stop_at_epoch_end")
+        ctx.oracle("final flag == some accepted request", final["stop"] == exp_stop, case, detail={"impl": final["stop"], "expected": exp_stop},
+                   sig=f"{sig}/final-flag", theorem="C12_refused_request_leaves_flag, C12_sticky")
+        ctx.oracle("one optimizer step per batch begun", final["ver"] == sum(1 for ev in exp_events if ev[0] == "bs"), case,
+                   sig=f"{sig}/opt-count", theorem="C12_param_window")
+        ctx.oracle("fit raised although no callback let an exception out", True, case, sig=f"{sig}/exception", theorem="C12_exception_trace")
+        ctx.count("asg_run:returned" + (",although a refused assignment was not caught" if escaped else ""))
+    else:
+        ctx.oracle("fit raised although no callback let an exception out", escaped is not None, case,
+                   detail=f"{type(err).__name__}: {err}", sig=f"{sig}/exception", theorem="C12_exception_trace")
+        ctx.count(f"asg_run:exception escaped from fit ({type(err).__name__})")
+        ctx.count("escape:train-end seen after the exception=" + str(any(c[2] == ["te"] for c in calls)))
+        # ---- flag persistence: what the aborted call leaves is the OR of the requests made before the exception; the next call on the
+        # object is silent iff it is set, a complete fresh run otherwise
+        exp_flag = bool(eff) or any((e - start) * nb + b < rec.opt_steps for e, b in mids)
+        ctx.oracle("flag left by a call that an exception escaped from == OR of the requests accepted before it", final["stop"] == exp_flag,
+                   case, detail={"impl": final["stop"], "expected": exp_flag, "outcomes": rec.outcomes[:6]}, sig=f"{sig}/flag-after-escape",
+                   theorem="C12_exception_trace, C12_sticky")
+        rec2 = _AsgRecorder([], [])
+        r["hold"].rec = rec2
+        rec2.hashes[param_hash(st)] = 0
+        a2 = {**a, "epochs": start}
+        err2 = simple_fit(st, rec2, r["data"], r["bases"], a2, [r["objs"][i] for i in cbs])
+        exp2, _ = ref_events(start, start, nb, final["stop"], lambda p: False)
+        exp2u = [[fid_of(i, ev[0]), i, ev] for ev in exp2 for i in cbs]
+        ctx.oracle("the call after an aborted call: silent iff a stop had been requested, otherwise a complete fresh run",
+                   err2 is None and rec2.ucalls == exp2u, case,
+                   detail={"error": repr(err2), "impl": rec2.ucalls[:30], "expected": exp2u[:30], "flag": final["stop"]},
+                   sig=f"{sig}/call-after-escape", theorem="C12_exception_trace, C12_stopped_run_is_noop, C12_protocol")
+    # ---- the model (QV.Train.fitAsg): setter as the code has it; verdicts only where implementation and model agree on WHICH
+    # assignments are refused (which objects a setter refuses is not part of the property: a setter accepting np.bool_ violates nothing)
+    if ctx.driver is not None:
+        m = ctx.driver.call("c12.fit_asg", start=start, epochs=epochs, numBatches=nb, cbs=cbs, timer=a["time"], hasSched=a["sched"],
+                            stop0=False, req_mid=mids, asg=[[i, ev, val, catches] for i, ev, val, catches in a["assigns"]])
+        agree = all(bool(o["raised"]) == (o["val"][0] != "bool") for o in rec.outcomes)
+        ctx.count(f"setter:refused-or-not as in the model={agree}")
+        for o in rec.outcomes:
+            ms = ctx.driver.call("c12.set_stop", val=o["val"], flag=o["before"])
+            ctx.count(f"setter:{o['val'][0]}:model={'refused' if ms['error'] else 'accepted'},impl={'refused' if o['raised'] else 'accepted'}")
+            if bool(ms["error"]) == bool(o["raised"]):
+                ctx.point("flag after `nn_state.stop_training = v` inside a handler", "property", o["after"], ms["stop"], case, exact=True,
+                          sig=f"{sig}/setter-flag", theorem=thm)
+        if agree and "abort" not in m and err is None:
+            L = len(cbs)
+            groups = [calls[k:k + L] for k in range(0, len(calls), L)]
+            ctx.point("events (callbacks assigning to stop_training)", "property", [g[0][2] for g in groups], m["events"], case, exact=True,
+                      sig=f"{sig}/events", theorem="C12_refused_request_leaves_flag, C12_protocol")
+            ctx.point("log (callbacks assigning to stop_training)", "property", log, [en for en in strip_model_log(m["log"]) if en[0] != "sched"],
+                      case, exact=True, sig=f"{sig}/log", theorem="C12_refused_request_leaves_flag, C12_sticky, C12_param_window")
+            ctx.point("final (callbacks assigning to stop_training)", "property", final, {"stop": m["stop"], "ver": m["ver"], "sched": m["sched"]},
+                      case, exact=True, sig=f"{sig}/final", theorem="C12_refused_request_leaves_flag, C12_sticky")
+        elif agree and "abort" in m and err is not None:
+            ab = m["abort"]
+            ctx.point("flag left when the exception escaped from fit", "property", final["stop"], ab["stop"], case, exact=True,
+                      sig=f"{sig}/abort-flag", theorem="C12_exception_trace")
+            # what has happened when the exception escapes (no later event, updates made) is not something the property speaks about:
+            # informational counters only
+            ctx.count(f"escape:handler calls seen as in the model's abort log={[[c[1], c[2]] for c in calls] == ab['calls']}")
+            ctx.count(f"escape:log (flags seen, parameter versions, updates) as in the model's abort log={log == [en for en in strip_model_log(ab['log']) if en[0] != 'sched']}")
+            ctx.count(f"escape:updates made as in the model={final['ver'] == ab['ver']}")
+        elif agree:
+            ctx.count(f"escape:model {'aborts' if 'abort' in m else 'returns'}, implementation {'raised' if err is not None else 'returned'}")
+    # ---- the Timer is transparent: the same case on a fresh object with `time` flipped shows the callbacks and the optimizer the same run
+    if err is None and case.get("timer_diff", True):
+        r2 = asg_run(case, time=not a["time"])
+        log2 = [en for en in r2["rec"].log if en[0] != "sched"]
+        same = (r2["err"] is None and log2 == log and r2["rec"].ucalls == rec.ucalls and r2["rec"].opt_steps == rec.opt_steps and
+                r2["rec"].sched_steps == rec.sched_steps and bool(r2["st"].stop_training) == final["stop"] and
+                param_hash(r2["st"]) == param_hash(st))
+        ctx.oracle("time=True / time=False: same handler calls (flags and parameter versions seen), same updates, same final flag and parameters",
+                   same, case, detail={"error": repr(r2["err"]), "with": log2[:30], "without": log[:30]}, sig=f"{kind}/timer-transparent",
+                   theorem="C12_timer_transparent")
+    begun = any(c[2][0] == "es" for c in calls)
+    ctx.case({k: v for k, v in case.items() if k != "dseed"}, nontrivial=begun and bool(rec.outcomes),
+             sample={"asg": a["assigns"][:2], "escaped": err is not None})
+
+
+# ------------------------------------------------------------------ extension round 2: the CallbackList container API
+OTHERS = (lambda: "on_epoch_end", lambda: 3, lambda: None, lambda: (lambda *a: None), lambda: object(), lambda: [])
+
+
+def gen_cbl_cases(rng, count):
+    """random operation sequences on a CallbackList: __setitem__ / __delitem__ / insert / append / + (both sides), indices inside and
+    outside the range (negative too), callbacks and non-callbacks offered; then `cl[k]` reads and a fit given the container"""
+    for c in range(count):
+        ids = [rng.randrange(4) for _ in range(rng.choice([0, 1, 2, 2, 3]))]
+        cur = list(ids)
+        ops = []
+
+        def item():
+            return {"other": rng.randrange(len(OTHERS))} if rng.random() < 0.22 else rng.randrange(4)
+
+        for _ in range(rng.choice([2, 3, 4, 5, 6, 7])):
+            n = len(cur)
+            t = rng.choice(["set", "set", "del", "del", "insert", "insert", "append", "add", "radd"])
+            if t == "set":
+                k, it = rng.randint(-n - 2, n + 1), item()
+                ops.append(["set", k, it])
+                if isinstance(it, int) and -n <= k < n:
+                    cur[k] = it
+            elif t == "del":
+                k = rng.randint(-n - 2, n + 1)
+                ops.append(["del", k])
+                if -n <= k < n:
+                    del cur[k]
+            elif t == "insert":
+                k, it = rng.randint(-n - 3, n + 3), item()
+                ops.append(["insert", k, it])
+                if isinstance(it, int):
+                    cur.insert(k, it)
+            elif t == "append":
+                it = item()
+                ops.append(["append", it])
+                if isinstance(it, int):
+                    cur.append(it)
+            else:
+                o = [rng.randrange(4) for _ in range(rng.choice([0, 1, 2]))]
+                ops.append([t, o])
+                cur = cur + o if t == "add" else o + cur
+        n = len(cur)
+        yield {"cbl": {"kind": rng.choice(["pos", "pos", "cplx", "dens"]), "init": ids, "ops": ops,
+                       "gets": [rng.randint(-n - 1, n) for _ in range(3)], "expect": cur, "start": 1, "epochs": rng.choice([1, 2]),
+                       "N": 3, "B": 2, "time": rng.random() < 0.4, "sched": False},
+               "dseed": rng.randrange(1 << 30)}
+
+
+def cbl_case(ctx, case):
+    import random
+
+    from qucumber.callbacks import CallbackList
+
+    ctx.current_case = case
+    a = case["cbl"]
+    kind = a["kind"]
+    rng = random.Random(case["dseed"])
+    st = make_state(kind, rng)
+    data, bases = make_data(kind, a["N"], rng)
+    torch.manual_seed(case["dseed"])
+    hold = _Holder()
+    rec = _AsgRecorder([], [])
+    hold.rec = rec
+    objs = {i: make_callback_spec(hold, i, {"lam": i % 2 == 0, "forms": ["pos"] * 6}) for i in range(4)}
+    ident_of = {id(o): i for i, o in objs.items()}
+    real = lambda it: objs[it] if isinstance(it, int) else OTHERS[it["other"]]()  # noqa: E731
+    contents = lambda c: [ident_of.get(id(o), f"foreign:{type(o).__name__}") for o in c]  # noqa: E731  list(cl): __iter__
+    sig = "cblist-ops"
+    cl = CallbackList([objs[i] for i in a["init"]])
+    raised, frame_ok, first_bad = [], True, None
+    for op in a["ops"]:
+        before = contents(cl)
+        err = None
+        try:
+            if op[0] == "set":
+                cl[op[1]] = real(op[2])
+            elif op[0] == "del":
+                del cl[op[1]]
+            elif op[0] == "insert":
+                cl.insert(op[1], real(op[2]))
+            elif op[0] == "append":
+                cl.append(real(op[1]))
+            elif op[0] == "add":
+                cl = cl + CallbackList([objs[i] for i in op[1]])
+            else:
+                cl = CallbackList([objs[i] for i in op[1]]) + cl
+        except Exception as e:  # noqa: BLE001  any exception type is a refusal
+            err = type(e).__name__
+            if contents(cl) != before and first_bad is None:
+                frame_ok, first_bad = False, {"op": op, "raised": err, "before": before, "after": contents(cl)}
+        raised.append(err)
+        offered_other = op[0] in ("set", "insert", "append") and not isinstance(op[-1], int)
+        ctx.count(f"cblist_op:{op[0]}{'(non-callback)' if offered_other else ''}:{'refused/' + err if err else 'accepted'}")
+    ctx.oracle("a container operation that raises leaves the contents of the CallbackList unchanged", frame_ok, case, detail=first_bad,
+               sig=f"{sig}/refused-op-frame", theorem="C12_container_ops_dispatch")
+    final_ids = contents(cl)
+    gets = []
+    for k in a["gets"]:
+        try:
+            gets.append(ident_of.get(id(cl[k]), "foreign"))
+        except Exception:  # noqa: BLE001
+            gets.append("refused")
+    ref_gets = [final_ids[k] if -len(final_ids) <= k < len(final_ids) else "refused" for k in a["gets"]]
+    ctx.oracle("cl[k] reads position k of list(cl) (negative k from the end; outside the range refused), len(cl) == len(list(cl))",
+               gets == ref_gets and len(cl) == len(final_ids), case, detail={"contents": final_ids, "k": a["gets"], "cl[k]": gets, "len": len(cl)},
+               sig=f"{sig}/getitem-consistent", theorem="C12_container_ops")
+    # ---- a fit given the container: dispatch order == contents, whatever the history of the container
+    err = simple_fit(st, rec, data, bases, a, cl)
+    nb = -(-a["N"] // a["B"])
+    ctx.oracle("fit raised when given a CallbackList edited through its container API", err is None, case,
+               detail=(None if err is None else {"error": f"{type(err).__name__}: {err}", "contents": final_ids}),
+               sig=f"{sig}/fit-exception", theorem="C12_container_ops, C12_container_ops_dispatch")
+    # the plain-list reference refuses a non-callback item and an index outside the range; which EXCEPTION is raised is not compared
+    ref_refused = []
+    cur = list(a["init"])
+    for op in a["ops"]:
+        n = len(cur)
+        if op[0] in ("set", "insert", "append") and not isinstance(op[-1], int):
+            ref_refused.append(True)
+            continue
+        if op[0] in ("set", "del") and not (-n <= op[1] < n):
+            ref_refused.append(True)
+            continue
+        ref_refused.append(False)
+        if op[0] == "set":
+            cur[op[1]] = op[2]
+        elif op[0] == "del":
+            del cur[op[1]]
+        elif op[0] == "insert":
+            cur.insert(op[1], op[2])
+        elif op[0] == "append":
+            cur.append(op[1])
+        elif op[0] == "add":
+            cur = cur + op[1]
+        else:
+            cur = op[1] + cur
+    same_refusals = [bool(x) for x in raised] == ref_refused
+    ctx.count(f"cblist:refused-or-not as the plain-list reference={same_refusals}")
+    if err is None:
+        exp_events, _ = ref_events(a["start"], a["epochs"], nb, False, lambda p: False)
+        seen = [[c[1], c[2]] for c in rec.log if c[0] == "call"]
+        ctx.oracle("fit dispatches every event to the callbacks the container holds, in the container's order", 
+                   seen == [[i, ev] for ev in exp_events for i in final_ids], case,
+                   detail={"contents": final_ids, "calls": seen[:30]}, sig=f"{sig}/dispatch-is-contents", theorem="C12_container_ops_dispatch, C12_dispatch_order")
+        if same_refusals:
+            ctx.oracle("contents after the operation sequence == the same operations on a plain list", final_ids == cur, case,
+                       detail={"impl": final_ids, "expected": cur}, sig=f"{sig}/contents", theorem="C12_container_ops")
+    if ctx.driver is not None:
+        item = lambda it: it if isinstance(it, int) else None  # noqa: E731
+        mops = [[op[0], op[1], item(op[2])] if op[0] in ("set", "insert") else [op[0], item(op[1])] if op[0] == "append" else op
+                for op in a["ops"]]
+        m = ctx.driver.call("c12.cblist_ops", init=a["init"], ops=mops, gets=a["gets"])
+        m_same = [bool(x) for x in raised] == [e is not None for e in m["errors"]]
+        ctx.count(f"cblist:refused-or-not as in the model={m_same}")
+        ctx.count(f"cblist:exception types as in the model={raised == m['errors']}")
+        if m_same:
+            ctx.point("len(cl), list(cl) after the operation sequence", "aux", [len(cl), final_ids], [len(m["final"]), m["final"]], case, exact=True,
+                      sig=f"{sig}/contents-model", theorem="C12_container_ops")
+            ctx.point("cl[k]", "aux", gets, [g if isinstance(g, int) else "refused" for g in m["gets"]], case, exact=True,
+                      sig=f"{sig}/getitem", theorem="C12_container_ops")
+            if err is None:
+                first = [c[1] for c in rec.log if c[0] == "call" and c[2] == ["ts"]]
+                ctx.point("callbacks fit dispatches to (order) after the container operations", "property", first, m["dispatched"], case,
+                          exact=True, sig=f"{sig}/dispatched", theorem="C12_container_ops_dispatch, C12_callbacks_container")
+    ctx.case({k: v for k, v in case.items() if k != "dseed"}, nontrivial=len(final_ids) >= 2 or any(raised),
+             sample={"init": a["init"], "ops": a["ops"][:4], "final": final_ids})
 
 
 # ------------------------------------------------------------------ LambdaCallback constructor stream
